@@ -7,6 +7,24 @@ COMMON_NOTE = ("Trusted: Coq 8.16.1 kernel (vm_compute, no native_compute); no a
                "extraction via ExtrOcamlBasic only + coq/Extract/driver.ml, cross-checked by vm_compute on a sample every run; "
                "harness/translate.py (T1) and the per-property runner harness/cNN.py (T2 canonicalisation). ")
 CLAIMED = {
+ "C08": dict(
+   text="Coq theorems: (truthful) for ALL 13 USAGE spellings and ALL pictures S?9(m)V9(n), 1<=m+n<=18, written out or in repeat notation (complete finite enumeration, lifted with forallb_forall and the completeness lemma) and all X(k)/A(k): the emitted type, contentEncoding, conversion and min/maxLength are what USAGE and PICTURE dictate, and on every VALID record the Python type of the delivered value (model decoder composed with CONVERSION, using C02's round-trip theorems) is the declared one - outside exactly characterised known-bad families, each refuted by a witness; same for the extended-vocabulary generator; (references) for ALL record trees every $ref and maxItemsDependsOn of the emitted schema has a node bearing that $anchor, every oneOf is non-empty and property names are distinct. "
+        "Validity under the real 2020-12 meta-schema and loadability are decided by correspondence: Draft202012Validator.check_schema and SchemaMaker.from_json on every generated schema, plus a single-keyword-mutation stream tying the Coq validity predicate to the real validator.",
+   note="Reuses Model/Estruct.v, Model/Layout.v build, C16's conversion model. json_type tables regenerated from the source. Pairwise-distinct anchors and 'load succeeds' are checked on every observed schema but not proved. Known findings: K-repeat-not-decimal (+ext; pinned by test_7/test_issue_1), the C04 size findings seen through the schema, K-redef-in-occurs-schema, K-ref-bound-by-title.",
+   technique="Coq proof by complete finite enumeration + mutual induction over record trees + regenerated parameters + differential correspondence incl. the real JSON Schema validator",
+   design="5/C08"),
+ "C10": dict(
+   text="Coq theorems over ALL schema trees, ALL records over any element type, ANY per-field decoder: value(name k) = the k entry of value(whole) whenever the whole decodes; Row.values = the values of the top-level properties in schema order; an index at or beyond the count is IndexError; a child's raw bytes are the corresponding slice of its parent's; LAZINESS as non-interference: two records that agree on the byte range of the location reached (and produce the same tree) give the same value INCLUDING error status, and a field's value is the decoder applied to its own bytes and nothing else; the location tree depends on the record only through the ODO counters. The value-level model is proved to erase to C01's layout model. DNav and WBNav families restate C15 / C09. "
+        "PARTIAL: index commutation is proved for items without $ref/ODO (the full statement is kept as a Definition), raw containment for $ref children is checked by the judge only. Correspondence on records with 0-3 corrupted numeric fields, every path, with a log of the byte slices each value() call read.",
+   note="Per-field decoder in the judge = C02's model. Known findings K-index-odo-value and K-negative-index (NDNav.index accepts negative ints), both with refutation theorems.",
+   technique="Coq proof by mutual induction over location trees (frame lemma for non-interference, fuel-stable $ref resolution) + sampled differential correspondence with a decode-slice log",
+   design="5/C10"),
+ "C11": dict(
+   text="PARTIAL. Coq theorem over ALL operation histories (parse copybooks, construct standard/extended makers, load schemas, read records, keep or drop navigators) and ALL probes: the probe's output after any history equals its output in a fresh state - proved over a state machine of the process-wide mutable state the code really has (DDE.filler_count, SchemaMaker.ATOMIC), whose two behaviours (counter reset at the start of structure(), extended maker not mutating the shared ATOMIC) are read from the source; the history-independent modes are characterised exactly and the two pre-fix behaviours are refuted. "
+        "NO theorem is claimed for 'the JSON document and the loaded schema are unchanged' (a Gallina value cannot be mutated): that half, and all per-object state, rest on the differential run: random histories in one interpreter versus the same probe in a fresh interpreter, with fingerprints of every document and loaded Schema before and after.",
+   note="Per-object state (names, name_cache, anchors, default mutable arguments, file_registry) is not modelled; it is exercised by the histories. Read probes are purely differential (C01 ties the layout).",
+   technique="Coq proof by induction over operation histories with a globals invariant + regenerated mode flags + differential fresh-interpreter correspondence",
+   design="5/C11"),
  "C06": dict(
    text="Coq theorems for the flat family of OCCURS DEPENDING ON records (one 01 group; any number and order of fixed elementary items, counters among them, elementary ODO/OCCURS tables and one-level group tables, each counter an earlier child), ALL count vectors, ALL records whose counter bytes hold the vector: the number of elements is the counter's value, every child starts where the COBOL rules put it for THIS record's counts, an index at or beyond the count is IndexError, the record ends at its extent, and trailing bytes of the buffer do not change the layout (frame lemma). Composition with C05's buffer automaton: for EVERY buffer size and EVERY sequence of such records back to back (RECFM N) the row loop delivers record j starting exactly where record j-1 ended, with the layout of its own counts; likewise V and VB. "
         "Nested ODO shapes are outside the theorem's family and are decided by correspondence against the same specification.",
